@@ -21,7 +21,7 @@ const (
 func c18(c *Ctx) {
 	p, r := c.P, c.R
 	r.Technique = "who-may-remove / who-may-replace inventory over SSA field stores; must-pass-through (cut) checks of the guards at every removal and record-replacement site; value-flow check of the failure counter"
-	r.Explanation = "Decides which code paths may remove or replace a table entry and under which guards: (R1) from the bucket-full branch of the add path no removal from entries is reachable, only the bounded front-push into replacements; (R2) every call site of the function that shrinks bucket.entries is guarded as one of {liveness failure: !didRespond and credit/3 <= 0; fruitless queries: counter >= 5 and len(entries) >= 16/4, where the counter is 0 on the success path and stored-count+1 on the failure path and is reset on success; explicit deletion: an otherwise mutation-free function deleting its own argument}; liveness credit is divided by 3 on failure and incremented on success, and the flag that tells the two apart is exactly 'the liveness ping returned no error'; (R3) the remover appends a replacement iff the replacement list is non-empty, takes it out of that list, and registers it; (R4) a stored record is replaced only under seq(new) > seq(old) or the inbound flag, the inbound flag can be true only for the sender parameter of a talk-request entry point (followed through parameters and operation-record fields), an endpoint change clears the verified flag on every path, the IP change is re-checked against the limits; (R5) replacements are pushed at the front. Not decided: equivalence with a reference model over operation histories."
+	r.Explanation = "Decides which code paths may remove or replace a table entry and under which guards: (R1) from the bucket-full branch of the add path no removal from entries is reachable, only the bounded front-push into replacements; (R2) every call site of the function that shrinks bucket.entries is guarded as one of {liveness failure: !didRespond and credit/3 <= 0; fruitless queries: counter >= 5 and len(entries) >= 16/4, where the counter is 0 on the success path and stored-count+1 on the failure path and is reset on success; explicit deletion: an otherwise mutation-free function deleting its own argument}; liveness credit is divided by 3 on failure and incremented on success, and the flag that tells the two apart is exactly 'the liveness ping returned no error'; (R3) the remover appends a replacement iff the replacement list is non-empty, takes it out of that list, and registers it; (R4) a stored record is replaced only under seq(new) > seq(old) or the inbound flag, the inbound flag can be true only for the sender parameter of a talk-request entry point (followed through parameters and operation-record fields), an endpoint change clears the verified flag on every path, the IP change is re-checked against the limits; (R5) replacements are pushed at the front. A constant credit is written only into an entry allocated at that site. Not decided: equivalence with a reference model over operation histories."
 	r.Assumptions = []string{"enode.DB FindFails/UpdateFindFails persist the counter faithfully", "slices.Delete / slices.DeleteFunc remove exactly the selected elements"}
 	m := newTableModel(c)
 	r.Floor("R1.full-bucket", 2)
@@ -141,7 +141,14 @@ func c18(c *Ctx) {
 		key := m.key(w, "credit-update")
 		if !ok || !core.IsLoadOfField(bo.X, "tableNode", "livenessChecks") {
 			if n, isC := core.ConstInt(w.Val); isC && n <= 1 {
-				r.Pass("R2.credit", key+" const", p.Pos(w.Store.Pos()), "constant initial credit")
+				// an initial value, so of an entry made right here: an entry that is already in the
+				// table keeps the credit it has earned (an endpoint change clears the verified
+				// flag, not the credit)
+				fresh := false
+				if _, _, base, okB := core.FieldRef(w.Store.Addr); okB {
+					_, fresh = core.Unwrap(base).(*ssa.Alloc)
+				}
+				r.Check(fresh, "R2.credit", key+" const", p.Pos(w.Store.Pos()), "constant initial credit of an entry allocated here", "the liveness credit of an existing entry is overwritten with a constant outside the liveness check: one unanswered ping then removes an entry that had credit left")
 				continue
 			}
 			r.Fail("R2.credit", key, p.Pos(w.Store.Pos()), "liveness credit written with an unrecognised value")
